@@ -517,6 +517,7 @@ func (n *btreeNode) split(newPg *btreeNode) (uint32, error) {
 			if err := newPg.appendLeafCell(cell.key, cell.valueBytes); err != nil {
 				return 0, err
 			}
+			newPg.leafCells[len(newPg.leafCells)-1].deleted = cell.deleted
 		}
 
 		n.offsets = n.offsets[0:mid]
